@@ -346,7 +346,12 @@ def judge(run, lines, whats, model, impl):
             run.sample({"what": whats[i], "impl": il[:300]})
         if BAD.search(il):
             groups.setdefault(signature(il), []).append(i)
+        elif " m=0 " in l[:8] and "open=BUSY" in toks:
+            # read(2)-only policy: a chunk of more than 16 pages can exhaust the 16-entry file
+            # cache (KDUMP_ERR_BUSY, a documented status); the model has no cache
+            run.count("busy-tolerated")
         elif model[i] not in ("SKIP", "") and not model[i].startswith("P ?"):
+            run.count("predicted")
             d = compare_prediction(model[i], il)
             if d:
                 groups.setdefault("corrupt tie " + d, []).append(i)
